@@ -822,3 +822,7 @@ def run(ctx: Ctx) -> None:  # noqa: F811
 
 
 FLOORS["C20-P1"] = 2
+
+EXPLANATION = EXPLANATION + (" Added while building: (P1) for the shipped-data properties documented as pattern avoidance, the mesh patterns the function tests are the documented ones "
+                             "(values compared; this is the statically visible part of 'the shipped partition is by the property it is named after'); (D1) nothing of the repository runs "
+                             "between opening a database entry for writing and the write, since existing entries are never rewritten.")
